@@ -112,9 +112,7 @@ def run_both(vm, mir, prog, stdin=(), out_fail_at=None, in_fail_at=None, describ
             if z3.is_false(e): bad('output-text', f'line {i} differs from the reference'); break
             if not z3.is_true(e): bad('output-text', f'line {i} differs from the reference', e)
     if (res.variant == 1) != (want[0] == 'err'): bad('outcome', f'real run {"failed" if res.variant else "succeeded"}, reference {"fails with " + str(want[1]) if want[0] == "err" else "succeeds"}')
-    elif res.variant == 1:
-        cls = mir.src.enums['RuntimeError'][conc(vm, res.fields[0]).variant]
-        if cls != want[1]: bad('error-class', f'real error {cls}, reference {want[1]}')
+    # which error is reported is not part of the properties (they say `a runtime error`): only success / failure is compared
     if odata['calls'] != ri.out_calls: bad('output-calls', f'{odata["calls"]} write calls, reference {ri.out_calls}')
     if idata['calls'] != ri.in_calls: bad('input-calls', f'{idata["calls"]} read calls, reference {ri.in_calls}')
     if odata['calls'] == ri.out_calls and idata['calls'] == ri.in_calls and vm.io_events != ri.events: bad('io-order', f'stream calls in the order {"".join(e[0] for e in vm.io_events)}, reference {"".join(e[0] for e in ri.events)} (o = write, i = read)')
